@@ -45,6 +45,11 @@ type Spec struct {
 	// wall clock of the run beyond 2262-04-11, the last instant that fits
 	// into 64-bit nanoseconds (testing/synctest itself cannot go there).
 	ClockShiftSec int64 `json:"clock_shift_s,omitempty"`
+	// MapDescending (auto-yield worker only): every loop of the instrumented
+	// copy over a Go map visits the keys in descending instead of ascending
+	// order. In that copy map iteration order is the simulator's choice, not
+	// the runtime's.
+	MapDescending bool `json:"map_descending,omitempty"`
 }
 
 // StratSpec names the scheduling strategy of a generated run.
